@@ -362,7 +362,20 @@ def rProg : Nat := nSlots + 2 * nObjs + nCalls + nSents + 1
 def rBase : Nat := nSlots + 2 * nObjs + nCalls + nSents + 2
 /-- chain of the packs of anonymous clones (`clones n`) -/
 def rAnon : Nat := nSlots + 2 * nObjs + nCalls + nSents + 3
-def nFixed : Nat := nSlots + 2 * nObjs + nCalls + nSents + 4
+/-- replace_program() family: layout L (0..3) has three programs, /c06/ra<L> (j = 0), /c06/rb<L> (j = 1) and
+    /c06/rc<L> (j = 2), which inherits the other two; `rLay L j` is the blueprint object of program j -/
+def nLayouts : Nat := 4
+def rLay (L j : Nat) : Nat := nSlots + 2 * nObjs + nCalls + nSents + 4 + 3 * L + j
+def nFixed : Nat := nSlots + 2 * nObjs + nCalls + nSents + 4 + 3 * nLayouts
+
+/-- variables of the first / second inherited program of layout L (4 variables altogether, the rest are rc's own) -/
+def layNa : Nat → Nat
+  | 2 => 2
+  | 3 => 3
+  | _ => 1
+def layNb : Nat → Nat
+  | 1 => 2
+  | _ => 1
 
 /-- heap index of the program of /c06/base and of /c06/uobj -/
 def cBase : Nat := 0
@@ -371,9 +384,10 @@ def cProg : Nat := 1
 /-- the state after the harness has loaded /c06/uobj: the program of /c06/base is held by its blueprint object and
     by the inherit table of the program of /c06/uobj, which is held by its own blueprint object -/
 def St.init : St :=
-  { heap := [{ kind := .prog, ref := 2, live := true, items := [], vis := false },
-             { kind := .prog, ref := 1, live := true, items := [.ptr cBase], vis := false }],
-    roots := (List.replicate (nFixed - 3) (.num 0)) ++ [.ptr cProg, .ptr cBase, .num 0] }
+  { heap := [{ kind := .prog, ref := 2, live := true, items := [], vis := false, tag := 0 },
+             { kind := .prog, ref := 1, live := true, items := [.ptr cBase], vis := false, tag := nVars }],
+    roots := (List.replicate (nFixed - 3 - 3 * nLayouts) (.num 0)) ++ [.ptr cProg, .ptr cBase, .num 0]
+               ++ List.replicate (3 * nLayouts) (.num 0) }
 
 inductive Op where
   | newarr (s n : Nat) | newmap (s : Nat) | newcls (s : Nat) | newbuf (s n : Nat)
@@ -402,6 +416,8 @@ inductive Op where
   | srange (d i j : Nat) (w : String)         -- v[d][i..j] = "w"        (unlink_string_svalue + copy_lvalue_range)
   | clones (n : Nat) | unclone (n : Nat)   -- n further clones of /c06/uobj (only their program reference is modelled)
   | unload (w : Nat)                        -- destruct + clean up the blueprint object of /c06/uobj (0) or /c06/base (1)
+  | newobjr (o L : Nat)                     -- clone of /c06/rc<L>: inherits ra<L> (layNa L variables) and rb<L> (layNb L variables)
+  | replace (o w : Nat)                     -- replace_program() by the first (w = 0) / second (w = 1) inherited program + replace_programs()
   deriving Repr
 
 /-- number of members of the harness class -/
@@ -422,6 +438,30 @@ def objCell (s : St) (o : Nat) : Option (Nat × Cell) :=
     | some (c, cell) => if cell.live && cell.kind == .obj && !cell.destructed then some (c, cell) else none
     | none => none
   else none
+
+/-- number of variables of an object = `num_variables_total` of its program (tag of the program cell) -/
+def objVars (s : St) (cell : Cell) : Nat :=
+  match cell.items[nVars]? with
+  | some (.ptr p) =>
+    match s.heap[p]? with
+    | some pc => pc.tag
+    | none => 0
+  | _ => 0
+
+/-- the object runs the program of /c06/uobj (callbacks, add_action, input_to, function pointers) -/
+def isUobj (cell : Cell) : Bool := cell.items[nVars]? == some (.ptr cProg)
+
+/-- usable /c06/uobj object behind handle o -/
+def uobjCell (s : St) (o : Nat) : Option (Nat × Cell) :=
+  match objCell s o with
+  | some (c, cell) => if isUobj cell then some (c, cell) else none
+  | none => none
+
+/-- the layout whose program rc<L> the object still runs (replace_program() not yet done) -/
+def layoutOf (s : St) (cell : Cell) : Option Nat :=
+  match cell.items[nVars]? with
+  | some (.ptr p) => (List.range nLayouts).find? (fun L => s.roots[rLay L 2]? == some (.ptr p))
+  | _ => none
 
 /-- live string behind a root -/
 def strSlot (s : St) (i : Nat) : Option (Nat × Cell) :=
@@ -586,7 +626,7 @@ def compile (s : St) (op : Op) : Option (List Mi) :=
   | .newstr d w => if d < nSlots then some (.share w :: intoSlot d) else none
   | .newmstr d w => if d < nSlots then some (.alloc .mstr 0 true w 0 :: intoSlot d) else none
   | .newfun d o t =>
-    match objCell s o with
+    match uobjCell s o with
     | some (_, _) =>
       if d < nSlots && t < nSlots then
         some ([.alloc .arr 1 false "" 0, .dup (.root t), .put (.item fresh 0),
@@ -665,11 +705,11 @@ def compile (s : St) (op : Op) : Option (List Mi) :=
     else none
   | .setvar o i t =>
     match objCell s o with
-    | some (c, _) => if i < nVars && t < nSlots then some (assignProg (.item c i) (.root t)) else none
+    | some (c, cell) => if i < objVars s cell && i < nVars && t < nSlots then some (assignProg (.item c i) (.root t)) else none
     | none => none
   | .getvar d o i =>
     match objCell s o with
-    | some (c, _) => if i < nVars && d < nSlots then some (assignProg (.root d) (.item c i)) else none
+    | some (c, cell) => if i < objVars s cell && i < nVars && d < nSlots then some (assignProg (.root d) (.item c i)) else none
     | none => none
   | .oref d o =>
     match objCell s o with
@@ -694,7 +734,7 @@ def compile (s : St) (op : Op) : Option (List Mi) :=
   | .drop o =>
     if o < nObjs && !isNumRoot s (rHandle o) then some [.take (.root (rHandle o)), .free] else none
   | .call k o st a b =>
-    match objCell s o with
+    match uobjCell s o with
     | some (_, _) =>
       if k < nCalls && a < nSlots && b < nSlots && isNumRoot s (rCall k) then
         some [.alloc .arr 2 false "" 0, .dup (.root a), .put (.item fresh 0), .dup (.root b), .put (.item fresh 1),
@@ -717,7 +757,7 @@ def compile (s : St) (op : Op) : Option (List Mi) :=
       | _ => none
     | none => none
   | .rmall o =>
-    match objCell s o with
+    match uobjCell s o with
     | some (c, _) =>
       some (((List.range nCalls).filter (fun k => match slotCell s (rCall k) with
           | some (_, ccell) =>
@@ -731,7 +771,7 @@ def compile (s : St) (op : Op) : Option (List Mi) :=
     | none => none
   | .sweep => none   -- handled by `step` (each call is compiled in the state left by the previous one)
   | .sent k o a b =>
-    match objCell s o with
+    match uobjCell s o with
     | some (c, _) =>
       if k < nSents && a < nSlots && b < nSlots && isNumRoot s (rSent k) then
         some [.alloc .arr 2 false "" 0, .dup (.root a), .put (.item fresh 0), .dup (.root b), .put (.item fresh 1),
@@ -752,7 +792,7 @@ def compile (s : St) (op : Op) : Option (List Mi) :=
   | .inp o a b =>
     -- input_to("icb", 0, a, b) called by object o for the interactive user: sentence -> (carry-over array, function
     -- pointer owned by o).  destruct_object(o) does NOT remove it (sentence->ob is 0), only the next input does.
-    match objCell s o with
+    match uobjCell s o with
     | some (_, _) =>
       if a < nSlots && b < nSlots && isNumRoot s rInput then
         some [.alloc .arr 2 false "" 0, .dup (.root a), .put (.item fresh 0), .dup (.root b), .put (.item fresh 1),
@@ -835,6 +875,38 @@ def compile (s : St) (op : Op) : Option (List Mi) :=
     let sl := anonSlots s
     if sl.length < n || !s.dlist.isEmpty then none
     else some ((sl.take n).flatMap (fun (p, i) => [Mi.take (.item p i), Mi.free]))
+  | .newobjr o L =>
+    if o < nObjs && L < nLayouts && isNumRoot s (rHandle o) && isNumRoot s (rExist o) then
+      -- the three programs of the layout become visible (tracked) cells the first time the layout is used: ra, rb
+      -- held by their blueprint objects and by the inherit table of rc
+      let progs := if isNumRoot s (rLay L 2) then
+          [Mi.alloc .prog 0 true "" (layNa L), .put (.root (rLay L 0)),
+           .alloc .prog 0 true "" (layNb L), .put (.root (rLay L 1)),
+           .alloc .prog 2 true "" nVars, .dup (.root (rLay L 0)), .put (.item (fresh + 2) 0),
+           .dup (.root (rLay L 1)), .put (.item (fresh + 2) 1), .put (.root (rLay L 2))]
+        else []
+      let f := fresh + (if isNumRoot s (rLay L 2) then 3 else 0)
+      some (progs ++ [.alloc .obj (nVars + 1) true "" o, .dup (.root (rLay L 2)), .put (.item f nVars),
+                      .put (.root (rExist o)), .dup (.root (rExist o)), .put (.root (rHandle o))])
+    else none
+  | .replace o w =>
+    -- replace_programs() (lib/efuns/replace_program.c) for one object: the variables of the kept program are moved to
+    -- the front (the slot they go to is released first), every other variable is released, then
+    -- `new_prog->ref++; ob->prog = new_prog; free_prog (old_prog)`
+    match objCell s o with
+    | some (c, cell) =>
+      match layoutOf s cell with
+      | some L =>
+        if w < 2 then
+          let kept := if w == 0 then layNa L else layNb L
+          let offset := if w == 0 then 0 else layNa L
+          let move := if offset == 0 then [] else
+            (List.range kept).flatMap (fun i => [Mi.take (.item c i), .free, .take (.item c (i + offset)), .put (.item c i)])
+          let rest := (List.range (nVars - kept)).flatMap (fun j => [Mi.take (.item c (kept + j)), Mi.free])
+          some (move ++ rest ++ [.dup (.root (rLay L w)), .take (.item c nVars), .swap, .put (.item c nVars), .free])
+        else none
+      | none => none
+    | none => none
   | .unload w =>
     -- the blueprint object is destructed and cleaned up: its reference on the program is released (free_prog); the
     -- program goes when no clone is left, and releases the programs it inherits (deallocate_program)
